@@ -120,3 +120,53 @@ def listkind(chk, P, units, rule="R-LISTKIND"):
                 chk.inst(rule, f, "if(%s)#%d" % (c["f"], k), c["f"] in used,
                          "block guarded by `%s` works on child list(s) %s" % (src(c), sorted(used)), loc=f.loc(x))
     return n
+
+
+ARITY_OF = {"first_child": "arity", "memory_first_child": "memory_arity", "io_first_child": "io_arity", "misc_first_child": "misc_arity"}
+SPLICERS = ("append_siblings_list", "prepend_siblings_list", "insert_siblings_list")
+
+
+def arity_pairing(chk, P, units, rule="R-ARITY"):
+    """sibling agreement inside one function: where a function keeps the arity counters in step with the child lists it splices
+    (Y->K_arity updated next to splice(&Y->K_first_child, ...)) for at least two of its splices, it does so for ALL of them
+    (functions that leave the arities to a later hwloc_connect_children(), like unlink_and_free_single_object, pair none)"""
+    n = 0
+    for u in units:
+        for f in P.unit(u).funcs(only_main=True):
+            sites = []
+            for c in f.calls(SPLICERS):
+                a0 = strip(args(c)[0])
+                if a0["k"] != "Unary" or a0["op"] != "&":
+                    continue
+                m = strip(a0["c"][0])
+                if m["k"] != "Member" or m["f"] not in ARITY_OF:
+                    continue
+                owner = lv(m["c"][0])
+                want = "%s->%s" % (owner, ARITY_OF[m["f"]])
+                # the enclosing statement list: climb to the nearest Compound/If body
+                p = f.par(c)
+                scope = None
+                while p is not None:
+                    if p["k"] in ("For", "While", "Do"):
+                        scope = p
+                        break
+                    p = f.par(p)
+                paired = False
+                # the counter of THIS list of THIS object is updated somewhere in the same loop iteration (or in the function
+                # when the splice is not in a loop): the update may sit next to the splice or be hoisted out of its guard
+                for y in (subnodes(scope) if scope is not None else f.walk()):
+                    if True:
+                        a = assigned(y)
+                        if a and lv(a[0]) == want:
+                            paired = True
+                sites.append((c, want, paired))
+            npaired = sum(1 for s in sites if s[2])
+            if npaired < 2:
+                continue
+            k = 0
+            for c, want, paired in sites:
+                k += 1
+                n += 1
+                chk.inst(rule, f, "splice#%d:%s" % (k, want), paired, "%s keeps arities in step with the lists it splices (%d of %d splices): %s(...) must be accompanied by an update of %s" % (
+                    f.name, npaired, len(sites), c.get("fn"), want), loc=f.loc(c))
+    return n
